@@ -318,6 +318,8 @@ def check_r065(fx, rep):
             cb = next((fx.bodies[k] for k in fx.bodies if F.strip_generics(k) == F.strip_generics(d or "")), None)
     if not rep.anchor("R06.5", cb is not None, "the callback of the StorageSlots pass"):
         return
+    # read the callback together with the private helpers nested next to it (`wrap_slot(key)`)
+    cb = F.inline_module_helpers(fx, cb)
     for V in ("StorageWrite", "SLoad"):
         arm = None
         for m, ps in F.exprs(cb["hir"]["value"], "Match"):
